@@ -200,6 +200,11 @@ Definition task_done (k : ttrk) : bool :=
 Definition task_waiting (k : ttrk) : bool :=   (* accepted, never started, not cancelled *)
   tt_accepted k && Nat.eqb (tt_started k) 0 && negb (tt_cancel0 k).
 
+(** for the "stop must not wait out its timeout" clause: a cancel-before-start that a later clean
+    withdrew does not settle the task (it may still run) *)
+Definition task_settled (k : ttrk) : bool :=
+  negb (tt_accepted k) || negb (is_none (tt_fin k)) || (tt_cancel0 k && negb (tt_withdrawn k)) || tt_cancel1 k.
+
 Definition count_true {A} (f : A -> bool) (l : list A) : Z := Z.of_nat (length (filter f l)).
 
 (** what a wait/take may return for task [i] asked on pool [p] *)
@@ -285,7 +290,7 @@ Definition postep (npools : nat) (maxes : list Z) (t : potr) (o : pop) (ob : pob
                               tt_cancel1 := tt_cancel1 k || negb (Nat.eqb (tt_started k) 0);
                               tt_consumed := tt_consumed k; tt_cleaned := tt_cleaned k; tt_withdrawn := tt_withdrawn k |}
   | PStop p dur, OStop r evs =>
-      let all_done_before := forallb task_done (po_tasks t) in
+      let all_done_before := forallb task_settled (po_tasks t) in
       let t0 := unquiet t in
       let k0 := getp t0 p in
       let t1 := fold_left pev evs (setp t0 p {| pt_rank := pt_rank k0; pt_stop_called := true; pt_stop_ok := pt_stop_ok k0;
@@ -301,7 +306,8 @@ Definition postep (npools : nat) (maxes : list Z) (t : potr) (o : pop) (ob : pob
           (* with nothing left to do, no worker legitimately asleep and some time to act in, a stop
              must not wait out its timeout *)
           flag t1 11 (Nat.ltb 1 npools || negb all_done_before || (dur <=? 0)
-                      || (0 <? count_true (parked (po_clock t1)) (po_workers t1)))
+                      || (0 <? count_true (parked (po_clock t1)) (po_workers t1))
+                      || (U64MAX <? po_clock t + dur))     (* the deadline saturates: no time to act in *)
       | StopDiverged => flag (flag t1 11 false) 1 false
       | _ => flag t1 12 false
       end
